@@ -32,20 +32,34 @@ def ambient_filters():
         ("pi", (is_processing_instruction_node,)),
         ("nothing", (lambda n: False,)),
         ("tag+text", (lambda n: isinstance(n, (TagNode, TextNode)),)),
+        # filters that reject SOME tag nodes: by local name, by position parity, by having an attribute
+        ("not-a", (lambda n: not isinstance(n, TagNode) or n.local_name != "a",)),
+        ("only-b", (lambda n: isinstance(n, TagNode) and n.local_name == "b",)),
+        ("with-k", (lambda n: isinstance(n, TagNode) and "k" in n.attributes,)),
+        # nested: an outer filter extended by an inner one
+        ("tag>not-a", ((is_tag_node,), (lambda n: not isinstance(n, TagNode) or n.local_name != "a",))),
+        ("text>comment", ((is_text_node,), (is_comment_node,))),
     ]
 
 
 class ambient:
+    """flt: None (the default filters), a tuple of filters (replacing), or a pair of tuples (outer, extended by inner)"""
     def __init__(self, flt):
-        self.cm = altered_default_filters(*flt) if flt is not None else None
+        self.cms = []
+        if flt is None:
+            return
+        if flt and isinstance(flt[0], tuple):
+            self.cms = [altered_default_filters(*flt[0]), altered_default_filters(*flt[1], extend=True)]
+        else:
+            self.cms = [altered_default_filters(*flt)]
 
     def __enter__(self):
-        if self.cm is not None:
-            self.cm.__enter__()
+        for cm in self.cms:
+            cm.__enter__()
 
     def __exit__(self, *a):
-        if self.cm is not None:
-            return self.cm.__exit__(*a)
+        for cm in reversed(self.cms):
+            cm.__exit__(*a)
 
 
 def edit(rng, root, loose):
@@ -111,12 +125,18 @@ def run(ctx, args):
             for pos, n in tags:
                 paths = {}
                 for name, flt in ambient_filters():
-                    with ambient(flt):
-                        paths[name] = n.location_path
+                    try:
+                        with ambient(flt):
+                            paths[name] = n.location_path
+                    except Exception as ex:     # noqa: BLE001
+                        paths[name] = "raises " + type(ex).__name__
                 lp = paths["none"]
                 small = {"doc": c06.safe_str(root), "node": list(pos), "path": lp, "tree": kind}
-                if len(set(paths.values())) != 1:
-                    ctx.fail("location_path depends on the ambient filters", dict(small, paths=paths))
+                for name, p_ in paths.items():
+                    ctx.count(1, "path-read:" + name)
+                    if p_ != lp:
+                        ctx.fail("location_path read under an ambient filter differs from the one read under none",
+                                 dict(small, filter=name, under_filter=p_))
                 if not SHAPE.match(lp):
                     ctx.fail("location_path is not made of indexed wildcard steps only", small)
                 if lp in seen:
